@@ -29,7 +29,8 @@ def run(ctx):
     if not q:
         mcs += [("fault_block", C(nc=2, ns=1, units=2, maxwrite=1, feat='"close","sessclose","fault","blockread","blockaccept"', extrainv=T), 2400),
                 ("gates_timer_s", C(nc=2, ns=1, units=1, maxwrite=1, feat='"swrite","close","gates"', timerep="s", extrainv=T), 1800),
-                ("fault_2s", C(nc=2, ns=2, units=1, maxwrite=1, feat='"sessclose","fault"', extrainv=T), 1800)]
+                ("fault_2s", C(nc=2, ns=2, units=1, maxwrite=1, feat='"sessclose","fault"', extrainv=T), 1800),
+                ("single", C(nc=1, ns=2, units=1, maxwrite=1, single="TRUE", feat='"swrite","close","blockread"', extrainv=T), 1800)]
     n = (lambda a, b: a if q else b)
     gens = [
         ("fault_bfs", C(nc=2, ns=1, units=1, maxwrite=1, feat='"sessclose","fault"'), 24, 0, None, 2, {"allconc": not q}),
@@ -42,6 +43,9 @@ def run(ctx):
          {"gates": True, "timerep": "s"}),
         ("open_gate", C(nc=2, ns=2, units=1, maxwrite=1, feat='"sessclose","fault","blockread","gates"'), 40, 0, n(250, 4000), 2,
          {"gates": True}),
+        # a singleplex client session (the server side never is): it closes with its single stream, whichever side closes first
+        ("single", C(nc=1, ns=2, units=1, maxwrite=1, single="TRUE", feat='"swrite","close","blockread"'), 30, 0, n(200, 3000), 1,
+         {"singleplex": True}),
     ]
     return muxprop.run_property(ctx, LEVEL, ASSUME, KEYS, mcs, gens, RULE, extra=backlog)
 
@@ -72,6 +76,9 @@ def backlog(ctx):
     race = lib.run_go(ctx, "multiplex", "TestVerifMuxRecvCloseRace", timeout=900)
     lib.collect_go(ctx, race, died_key="panic")
     ctx.log("recv-vs-close race: %d rounds, %d violations" % (race["stats"].get("rounds", 0), len(race.get("violations", []))))
+    mf = lib.run_go(ctx, "multiplex", "TestVerifC12MultiFault", timeout=900, tag="multi_fault")
+    lib.collect_go(ctx, mf)
+    ctx.log("multi-fault: %d rounds, %d violations" % (mf["evaluations"], len(mf.get("violations", []))))
     cc = lib.run_go(ctx, "multiplex", "TestVerifMuxCloseVsCloseRace", timeout=900, tag="close_vs_close")
     lib.collect_go(ctx, cc)
     ctx.log("close-vs-close race: %d rounds, %d violations" % (cc["stats"].get("rounds", 0), len(cc.get("violations", []))))
